@@ -253,7 +253,33 @@ def collection_case(ctx, index, rng: random.Random):
         hs.append(physt.h1(np.asarray(data), np.array(e), name=f"h{i}"))
     if any(x.total == 0 for x in hs):
         return  # normalising an empty member divides by zero: outside the statement
-    col = HistogramCollection(*hs)
+    how = rng.choice(["members", "members", "facade", "create"])
+    if how == "members":
+        col = HistogramCollection(*hs)
+    else:
+        # the other ways of building a collection hold the same members: collection({name: values}, bins) / create(name, values)
+        datas = [np.asarray(gen.data_for_bins(rng, pairs, rng.randint(1, 30), outside=False)) for _ in range(k)]
+        try:
+            with warnings.catch_warnings():
+                warnings.simplefilter("ignore")
+                if how == "facade":
+                    col = physt.collection({f"h{i}": d for i, d in enumerate(datas)}, np.array(e))
+                else:
+                    col = HistogramCollection(binning=physt.h1(datas[0], np.array(e)).binning.copy())
+                    for i, d in enumerate(datas):
+                        col.create(f"h{i}", d)
+        except Exception as ex:
+            rec.fail(monitor="C06.identities", op=f"collection/{how}", symptom=f"building a collection raised {type(ex).__name__}", diff=["raised"], detail={"error": str(ex)[:200]})
+            return
+        hs = list(col.histograms)
+        with attach.quiet():
+            for i, (x, d) in enumerate(zip(hs, datas)):
+                ref = physt.h1(d, np.array(e))
+                if len(hs) != k or not (np.array_equal(np.asarray(x.frequencies), np.asarray(ref.frequencies)) and np.array_equal(np.asarray(x.bins), np.asarray(ref.bins)) and x.name == f"h{i}"):
+                    rec.fail(monitor="C06.identities", op=f"collection/{how}", symptom="a member of the collection is not the histogram of its own values over the shared bins", diff=["frequencies"],
+                             detail={"member": i, "got": np.asarray(x.frequencies), "expected": np.asarray(ref.frequencies)})
+        if any(x.total == 0 for x in hs):
+            return
     with attach.quiet():
         before = [snap.snapshot(x) for x in hs]
     inplace = rng.random() < 0.3
@@ -279,7 +305,7 @@ def collection_case(ctx, index, rng: random.Random):
             for x, b in zip(hs, before):
                 if snap.diff(b, snap.snapshot(x)):
                     rec.fail(monitor="C06.identities", op="normalize_bins", symptom="copying collection normalisation modified a member", diff=["operand"], detail={})
-    rec.case({"edges": e, "k": k, "tot": tot.tolist()}, k >= 2, cls="collection")
+    rec.case({"edges": e, "k": k, "tot": tot.tolist()}, k >= 2, cls=f"collection/{how}")
 
 
 def run(ctx):
